@@ -207,6 +207,7 @@ extern int mpt_connection_dispatch(MPT_STRUCT(connection) *con, MPT_TYPE(event_h
 	if ((size_t) hlen > buf->_used) {
 		mpt_log(0, _func, MPT_LOG(Error), "%s (%u < %u)", MPT_tr("datagram too small"), hlen, (int) buf->_used);
 		mpt_outdata_reply(&con->out, slen, buf + 1, 0);
+		buf->_used = 0;
 		return MPT_ERROR(BadValue);
 	}
 	data = (void *) (buf + 1);
@@ -256,6 +257,8 @@ extern int mpt_connection_dispatch(MPT_STRUCT(connection) *con, MPT_TYPE(event_h
 		if (!(ans = mpt_command_get(&con->_wait, id))) {
 			mpt_log(0, _func, MPT_LOG(Error), "%s: %s (" PRIx64 ")",
 			        MPT_tr("reply processing failed"), MPT_tr("message not registered"), id);
+			/* refused datagram must not precede next outgoing message */
+			buf->_used = 0;
 			return MPT_ERROR(MissingBuffer);
 		}
 		msg.base = data + hlen;
@@ -310,6 +313,7 @@ extern int mpt_connection_dispatch(MPT_STRUCT(connection) *con, MPT_TYPE(event_h
 		if ((ev.reply = rc) && mpt_reply_set(rd, ilen, data) < 0) {
 			mpt_log(0, _func, MPT_LOG(Error), "%s: %s",
 			        MPT_tr("dispatch failed"), MPT_tr("context not ready"));
+			buf->_used = 0;
 			return MPT_ERROR(BadOperation);
 		}
 		msg.base = data + hlen;
